@@ -55,8 +55,10 @@ def tree_spec(rng, depth, base, spread):
         return leaf_spec(rng, base, spread)
     d = S.reg('CompoundPixelRegion', region1=tree_spec(rng, depth - 1, base, spread), region2=tree_spec(rng, depth - 1, base, spread),
               operator=rng.choice(['and', 'or', 'xor']))
-    inc = rng.choice(['inherit', 'inherit', 'inherit', True, False, 0, 1])
-    if inc != 'inherit':
+    inc = rng.choice(['inherit', 'inherit', 'inherit', True, False, 0, 1, 'empty'])
+    if inc == 'empty':
+        d['meta'] = {}             # an explicit, empty meta of its own: the compound is included whatever region1 says
+    elif inc != 'inherit':
         d['meta'] = {'include': inc}
     return d
 
@@ -65,6 +67,13 @@ def generate(rng, tier, shard, nshards):
     n = 200 if tier == 'quick' else 2500
     for i in range(n):
         r = rng.random()
+        if r < 0.06:
+            # integer centre and sizes, queries on the integer lattice: positions exactly ON the inner/outer outline
+            # (e.g. Pythagorean offsets) must be answered like outer-and-not-inner answers them
+            yield {'lane': 'annulus-lattice', 'cls': rng.choice(gen.ANNULI_PIX), 'cx': rng.randint(-20, 20), 'cy': rng.randint(-20, 20),
+                   'ro': rng.choice([5, 10, 13, 25]), 'ri': rng.choice([1, 2, 3, 4]), 'include': rng.choice(['absent', False]),
+                   'angle_deg': rng.choice([0, 90, 180, 270])}
+            continue
         if r < 0.3:
             cls = rng.choice(gen.ANNULI_PIX)
             reg = gen.pixel_region_spec(rng, cls=cls, size_range=(1e-2, 1e3), max_aspect=20)
@@ -162,6 +171,8 @@ def run_case(case, obs):
     if not _WRAPPED:
         for (cls, name) in monitors._installed:
             _WRAPPED[(cls, name)] = cls.__dict__[name]
+    if case['lane'] == 'annulus-lattice':
+        return run_annulus_lattice(case, obs)
     if case['lane'].startswith('annulus'):
         return run_annulus(case, obs)
     spec = case['region']
@@ -234,6 +245,38 @@ def run_case(case, obs):
             obs.check(bool(np.array_equal(r, np.broadcast_to(exp, r.shape))), 'sky-compound-membership-not-operator-of-operands',
                       f'{opname}: CompoundSkyRegion.contains differs from the operator applied to the operands\' answers', 'sky-compound-contains')
     obs.check(S.fingerprint(comp) == fp0, 'compound-operation-mutates', 'compound changed during the case', 'construction')
+
+
+def run_annulus_lattice(case, obs):
+    import astropy.units as u
+    import regions
+    from regions import PixCoord
+    cx, cy, ro, ri = case['cx'], case['cy'], case['ro'], case['ri']
+    meta = None if case['include'] == 'absent' else regions.RegionMeta({'include': case['include']})
+    c = PixCoord(cx, cy)
+    ang = case['angle_deg'] * u.deg
+    cls = case['cls']
+    if cls == 'CircleAnnulusPixelRegion':
+        ann = regions.CircleAnnulusPixelRegion(c, ri, ro, meta=meta)
+        inner, outer = regions.CirclePixelRegion(PixCoord(cx, cy), ri), regions.CirclePixelRegion(PixCoord(cx, cy), ro)
+    else:
+        comp = regions.EllipsePixelRegion if cls[0] == 'E' else regions.RectanglePixelRegion
+        ann = getattr(regions, cls)(c, 2 * ri, 2 * ro, 2 * ri, 2 * ro + 4, ang, meta=meta)
+        inner, outer = comp(PixCoord(cx, cy), 2 * ri, 2 * ri, ang), comp(PixCoord(cx, cy), 2 * ro, 2 * ro + 4, ang)
+    xs, ys = np.meshgrid(np.arange(cx - ro - 3, cx + ro + 4), np.arange(cy - ro - 5, cy + ro + 6))
+    for pc in (PixCoord(xs, ys), PixCoord(xs.astype(float), ys.astype(float)), PixCoord(cx + ro, cy), PixCoord(cx + 3 * ro // 5, cy + 4 * ro // 5)):
+        got = np.asarray(ann.contains(pc))
+        exp = np.logical_and(np.asarray(outer.contains(pc)), np.logical_not(np.asarray(inner.contains(pc))))
+        if meta is not None:
+            exp = np.logical_not(exp)
+        obs.check(got.shape == exp.shape and bool(np.array_equal(got, exp)), 'annulus-membership-not-outer-minus-inner',
+                  f'{cls} centre ({cx},{cy}) sizes {ri}/{ro}: contains differs from outer and not inner at {int(np.sum(got != exp)) if got.shape == exp.shape else "?"} lattice positions '
+                  f'(positions exactly on an outline included)', 'annulus-membership')
+    m = ann.to_mask(mode='center')
+    mo, mi = outer.to_mask(mode='center'), inner.to_mask(mode='center')
+    expm = np.logical_xor(place(mi, m.bbox), place(mo, m.bbox)).astype(int)
+    obs.check(bool(np.array_equal(np.asarray(m.data), expm)), 'annulus-mask-not-outer-minus-inner', f'{cls}: centre mask differs from outer mask minus inner mask (lattice case)',
+              'annulus-membership')
 
 
 def run_annulus(case, obs):
